@@ -1289,11 +1289,19 @@ func (c *Conn) Close() error {
 		if err := c.closeNotify(); err != nil {
 			alertErr = fmt.Errorf("dtlcp: failed to send closeNotify alert (but connection was closed anyway): %w", err)
 		}
+		// 仅在握手完成后置零：此前握手流程（establishKeys）仍可能在另一个 goroutine 中写入 workKey
+		c.zeroWorkKey()
 	}
-	setZero(c.workKey)
-	c.workKey = nil
 
 	return alertErr
+}
+
+// zeroWorkKey 对工作密钥置零。在写方向的锁内进行，与握手完成后使用密钥的写路径互斥。
+func (c *Conn) zeroWorkKey() {
+	c.out.Lock()
+	defer c.out.Unlock()
+	setZero(c.workKey)
+	c.workKey = nil
 }
 
 // CloseWrite 关闭连接的写入端，发送 close_notify 告警后关闭写入方向。
